@@ -1,7 +1,10 @@
 #!/bin/sh
 # recheck_seeded.sh [seed...] : for every kept seeded change: apply to /repo, run the check named in meta.json (property) in the
 # quick tier with each seed (default 0), expect exit 1; restore /repo. Prints one line per (change, seed); "MISSED" marks exit 0.
-cd /repo || exit 2
+# RS_REPO=<clone of /repo> makes it work on that clone (the checks then run with VERIF_REPO=<clone>), so /repo stays usable meanwhile.
+R="${RS_REPO:-/repo}"
+if [ "$R" != "/repo" ]; then export VERIF_REPO="$R"; fi
+cd "$R" || exit 2
 git diff --quiet || { echo "REPO DIRTY"; exit 2; }
 SEEDS="${*:-0}"
 for d in /verif/seeded/*/; do
